@@ -3648,6 +3648,26 @@ async fn main() -> anyhow::Result<()> {
         }
     } else {
         if config.persistence.enable_recovery {
+            // No MANIFEST normally means a directory that was never used. If snapshot or WAL
+            // files are present the MANIFEST has been lost: starting empty would silently
+            // drop every document those files hold (and the next write would publish a new
+            // MANIFEST over them).
+            let orphaned = std::fs::read_dir(&data_dir_path)
+                .map(|entries| {
+                    entries.flatten().any(|entry| {
+                        let name = entry.file_name();
+                        let name = name.to_string_lossy();
+                        (name.starts_with("snapshot_") && name.ends_with(".snap"))
+                            || (name.starts_with("wal_") && name.ends_with(".wal"))
+                    })
+                })
+                .unwrap_or(false);
+            if orphaned {
+                anyhow::bail!(
+                    "data directory {} contains snapshot/WAL files but no MANIFEST; refusing to initialize an empty database over them",
+                    data_dir_path.display()
+                );
+            }
             info!(
                 data_dir = %data_dir_path.display(),
                 "No MANIFEST found; initializing a new empty database"
